@@ -55,7 +55,8 @@ def get_qbytestensor_op_dispatch(aten_op):
 
 
 def is_scalar(t):
-    return isinstance(t, numbers.Number) or type(t) == torch.Tensor and len(t.shape) == 0
+    # (complex numbers are not ordered, and cannot be applied to a scale)
+    return isinstance(t, numbers.Real) or type(t) == torch.Tensor and len(t.shape) == 0 and not t.is_complex()
 
 
 def is_positive_scalar(t):
